@@ -17,8 +17,12 @@ the *scope table*: which entities go into which dictionary under which naming fu
 properties / methods` loops and the "is the error actually returned" flags are regenerated from
 the source (`Gen.Naming`); the structure-name part is written by hand from the code.
 
+The other dictionaries of the SDK checks (`_verify_constant_name_collisions`, …) are interpreted from their
+regenerated description (`Gen.Naming.globalChecks`: loops over collections of the symbol table + naming function).
+
 `emittedScopes` additionally lists scopes that the generators emit into but no check looks at
-(`uncheckedScopes`), hand-written from the generators and cross-checked by the direct oracle.
+(`uncheckedScopes`): the generator side (`sdkFamilies`) is hand-written from the generators and cross-checked by the
+direct oracle; whether a family is covered is decided from the regenerated description of the checks.
 -/
 namespace AasVerif.Collide
 open AasVerif AasVerif.Naming
@@ -62,6 +66,7 @@ structure MM where
   /-- `symbol_table.our_types`, definition order -/
   types : List OurType
   consts : List Text
+  /-- `symbol_table.verification_functions`; all of them pattern verifications (`match(pattern, text) is not None`) -/
   funcs : List Text
 deriving Repr, DecidableEq
 
@@ -76,6 +81,9 @@ structure Ent where
   fn : String
   ident : Text
   ctx : Text := []
+  /-- fixed text the generator puts around the converted name (`Verify{class_name(…)}`) -/
+  opre : Text := []
+  opost : Text := []
 deriving Repr, DecidableEq
 
 structure Scope where
@@ -96,7 +104,10 @@ deriving Repr, DecidableEq
 
 abbrev table := Gen.Naming.convTable
 
-def convEnt (e : Ent) : Except String Text := conv table e.fn e.ctx e.ident
+def convEnt (e : Ent) : Except String Text :=
+  match conv table e.fn e.ctx e.ident with
+  | .error s => .error s
+  | .ok r => if e.opre = [] ∧ e.opost = [] then .ok r else identR (e.opre ++ r ++ e.opost)
 
 def convAll : List Ent → Except String (List Text)
   | [] => .ok []
@@ -132,14 +143,27 @@ def memberEnts (t : String) (c : ClsT) : List Ent :=
 def literalEnts (t : String) (e : EnumT) : List Ent :=
   e.literals.flatMap fun l => (fnsOf t "literal").map fun f => { fn := f, ident := l }
 
-/-- `_verify_intra_structure_collisions` for every our type (one dictionary per type). -/
+/-- Names DERIVED from the property names inside the property loop (`Identifier(f"set_{prop.name}_from_jsonable")`),
+each kept in a dictionary of its own (regenerated: `Gen.Naming.intraDerived`). -/
+def derivedLoops (t : String) : List (String × CheckLoop) := (Gen.Naming.intraDerived.lookup t).getD []
+
+def derivedPropScopes (t : String) (c : ClsT) (reported : Bool) : List Scope :=
+  ((derivedLoops t).filter fun kl => kl.1 = "prop").map fun kl =>
+    { kind := "members-derived", owner := c.name,
+      ents := c.props.map fun p =>
+        { fn := kl.2.fn, ident := kl.2.pre ++ p ++ kl.2.post, opre := kl.2.opre, opost := kl.2.opost },
+      reported := reported }
+
+/-- `_verify_intra_structure_collisions` for every our type (one dictionary per type, plus one per derived name). -/
 def intraScopes (t : String) (mm : MM) : List Scope :=
-  mm.types.filterMap fun
+  mm.types.flatMap fun
     | .enum e =>
-      if (fnsOf t "literal").isEmpty then none
-      else some { kind := "literals", owner := e.name, ents := literalEnts t e, reported := intraReported t }
-    | .cprim _ => none
-    | .cls c => some { kind := "members", owner := c.name, ents := memberEnts t c, reported := intraReported t }
+      if (fnsOf t "literal").isEmpty then []
+      else [{ kind := "literals", owner := e.name, ents := literalEnts t e, reported := intraReported t }]
+    | .cprim _ => []
+    | .cls c =>
+      { kind := "members", owner := c.name, ents := memberEnts t c, reported := intraReported t }
+        :: derivedPropScopes t c (intraReported t)
 
 /-- The inter-structure dictionary, hand-written per target from `_verify_structure_name_collisions`. -/
 def structureEnts (t : String) (mm : MM) : List Ent :=
@@ -174,6 +198,25 @@ def structureEnts (t : String) (mm : MM) : List Ent :=
         { fn := "golang.enum_literal_name", ident := l, ctx := e.name })
   else []
 
+/-- The name of the generated `ModelType` enumeration (cpp, golang, typescript), looked up in the dictionary of the
+structure names after all of them are registered — when the check does so (`Gen.Naming.modelTypeReserved`). -/
+def modelTypeEnumEnt (t : String) : Ent :=
+  { fn := t ++ ".enum_name", ident := "Model_type".toList.map (·.toNat) }
+
+def emitsModelTypeEnum (t : String) : Bool := t = "cpp" ∨ t = "golang" ∨ t = "typescript"
+
+def modelTypeReserved (t : String) : Bool := (Gen.Naming.modelTypeReserved.lookup t).getD false
+
+/-- Golang: the literals of the `ModelType` enumeration are global constants, one per concrete class; the check
+registers them after the lookup of `ModelType` itself (`Gen.Naming.modelTypeLiteralsReserved`). -/
+def modelTypeLiteralEnts (mm : MM) : List Ent :=
+  (mm.classes.filter fun c => !c.abstract).map fun c =>
+    { fn := "golang.enum_literal_name", ident := c.name, ctx := "Model_type".toList.map (·.toNat) }
+
+def reservedEnts (t : String) (mm : MM) : List Ent :=
+  (if modelTypeReserved t then [modelTypeEnumEnt t] else [])
+  ++ (if t = "golang" ∧ Gen.Naming.modelTypeLiteralsReserved then modelTypeLiteralEnts mm else [])
+
 /-- Keys handed to `Definitions.update_for`, in order (jsonschema/main.py:generate). -/
 def jsonDefinitionEnts (mm : MM) : List Ent :=
   mm.types.flatMap fun
@@ -203,21 +246,53 @@ def xsdEnts (tag : String) (mm : MM) : List Ent :=
 def sdkTargets : List String := ["cpp", "csharp", "golang", "java", "python", "typescript"]
 def targets : List String := sdkTargets ++ ["jsonschema", "xsd"]
 
-/-- The scopes a target's check looks at. -/
-def checkedScopes (t : String) (mm : MM) : List Scope :=
-  if t = "jsonschema" then
-    [ { kind := "definitions", owner := [], ents := jsonDefinitionEnts mm,
-        reported := Gen.Naming.jsonDefinitionsChecked },
-      { kind := "definitions+ModelType", owner := [], ents := jsonDefinitionEnts mm ++ [modelTypeEnt],
-        reported := Gen.Naming.jsonDefinitionsChecked && Gen.Naming.modelTypeChecked } ]
-  else if t = "xsd" then
-    ["xs:simpleType", "xs:complexType", "xs:group"].map fun tag =>
-      { kind := tag, owner := [], ents := xsdEnts tag mm, reported := Gen.Naming.xsdObservedChecked }
-  else if t ∈ sdkTargets then
-    { kind := "structures", owner := [], ents := structureEnts t mm, reported := true } :: intraScopes t mm
+/-! ### The other dictionaries of the SDK checks (`_verify_<kind>_collisions(symbol_table)`), regenerated from the source -/
+
+/-- `symbol_table.<coll>` as a list of names. -/
+def collNames (mm : MM) (coll : String) : List Text :=
+  if coll = "constants" then mm.consts
+  else if coll = "verification_functions" then mm.funcs
+  -- `if isinstance(verification, intermediate.PatternVerification)`: every function of the modelled meta-models
+  -- is a pattern verification (`MM.funcs`)
+  else if coll = "pattern_verification_functions" then mm.funcs
+  else if coll = "constrained_primitives" then mm.types.filterMap fun | .cprim n => some n | _ => none
+  else if coll = "enumerations" then mm.enums.map (·.name)
+  else if coll = "classes" then mm.classes.map (·.name)
+  else if coll = "concrete_classes" then (mm.classes.filter fun c => !c.abstract).map (·.name)
+  -- `for cls in symbol_table.classes: if len(cls.concrete_descendants) == 0: continue`
+  else if coll = "classes_with_descendants" then (mm.classes.filter fun c => c.hasDesc).map (·.name)
   else []
 
-/-! ### Scopes the generators emit into but no check covers (hand-written, cross-checked by the oracle) -/
+def loopEnts (mm : MM) (l : CheckLoop) : List Ent :=
+  (collNames mm l.coll).map fun n => { fn := l.fn, ident := l.pre ++ n ++ l.post, opre := l.opre, opost := l.opost }
+
+/-- One dictionary fed by several loops, in source order. -/
+def dictEnts (mm : MM) (ls : List CheckLoop) : List Ent := ls.flatMap (loopEnts mm)
+
+def globalChecksOf (t : String) : List (String × List CheckLoop) := (Gen.Naming.globalChecks.lookup t).getD []
+
+def globalScopes (t : String) (mm : MM) : List Scope :=
+  (globalChecksOf t).map fun (k, ls) => { kind := k, owner := [], ents := dictEnts mm ls, reported := true }
+
+/-! ### What the generators emit into (hand-written from the generators, cross-checked by the oracle)
+
+A `Family` is a group of scopes that a generator fills with generated names, together with the condition under which
+the target's check (as regenerated from the source: `Gen.Naming.globalChecks`, `intraLoops`) looks at exactly these
+names: every loop of the family is one of the loops of one dictionary of the check, with the SAME naming function. A
+covered family is part of a checked scope; an uncovered one is an unchecked scope. -/
+
+structure Family where
+  covered : Bool
+  scopes : MM → List Scope
+
+def loopsCovered (t : String) (ls : List CheckLoop) : Bool :=
+  (globalChecksOf t).any fun (_, cl) => ls.all fun l => cl.contains l
+
+def globalFamily (t kind : String) (ls : List CheckLoop) : Family :=
+  { covered := loopsCovered t ls,
+    scopes := fun mm => [{ kind := kind, owner := [], ents := dictEnts mm ls, reported := false }] }
+
+def intraCovered (t k fn : String) : Bool := (lookupLoops t).contains (k, fn)
 
 def constFn (t : String) : String :=
   if t = "csharp" ∨ t = "java" then t ++ ".property_name" else t ++ ".constant_name"
@@ -225,63 +300,152 @@ def constFn (t : String) : String :=
 def funcFn (t : String) : String :=
   if t = "csharp" ∨ t = "java" then t ++ ".method_name" else t ++ ".function_name"
 
+def verifyPre : Text := "verify_".toList.map (·.toNat)
+
+/-- `Verify<Name>` of a constrained primitive as the verification generator of the target names it: C# and Java put
+`class_name(name)` behind a fixed `Verify` / `verify`, the others convert `verify_<name>` as a function name. -/
+def cprimVerifyLoop (t : String) : CheckLoop :=
+  if t = "csharp" then ⟨"constrained_primitives", "csharp.class_name", [], [], "Verify".toList.map (·.toNat), []⟩
+  else if t = "java" then ⟨"constrained_primitives", "java.class_name", [], [], "verify".toList.map (·.toNat), []⟩
+  else ⟨"constrained_primitives", funcFn t, verifyPre, [], [], []⟩
+
+def constructPre : Text := "construct_".toList.map (·.toNat)
+
+def fromJsonablePost : Text := "_from_jsonable".toList.map (·.toNat)
+
+def tsSetterLoop : CheckLoop :=
+  ⟨"members", "typescript.method_name", "set_".toList.map (·.toNat), fromJsonablePost, [], []⟩
+
+def sdkFamilies (t : String) : List Family :=
+  [ globalFamily t "constants" [⟨"constants", constFn t, [], [], [], []⟩],
+    globalFamily t "functions" [⟨"verification_functions", funcFn t, [], [], [], []⟩] ]
+  ++ (if t = "csharp" ∨ t = "java" then
+        [ { covered := intraCovered t "literal" (t ++ ".enum_literal_name"),
+            scopes := fun mm => mm.enums.map fun e =>
+              { kind := "literals", owner := e.name,
+                ents := e.literals.map fun l => { fn := t ++ ".enum_literal_name", ident := l }, reported := false } } ]
+      else [])
+  -- `verify_<Name>` of the verification module for every constrained primitive (golang: part of
+  -- `derived-structures` below, together with the other types)
+  ++ (if t = "golang" then []
+      else [ globalFamily t "derived-cprims" [cprimVerifyLoop t] ])
+  -- Java: the generated members are `get…`/`set…` (`getter_name`)
+  ++ (if t = "java" then
+        [ { covered := intraCovered t "prop" "java.getter_name",
+            scopes := fun mm => mm.classes.map fun c =>
+              { kind := "accessors", owner := c.name,
+                ents := c.props.map fun p => { fn := "java.getter_name", ident := p }, reported := false } } ]
+      else [])
+  -- Java, TypeScript: `construct<Name>` beside every pattern verification function (a prefix before the name, so
+  -- that the first part of the name is capitalised like the others)
+  ++ (if t = "java" then
+        [ globalFamily t "derived-functions"
+            [⟨"pattern_verification_functions", "java.private_method_name", constructPre, [], [], []⟩] ]
+      else if t = "typescript" then
+        [ globalFamily t "derived-functions"
+            [⟨"pattern_verification_functions", "typescript.function_name", constructPre, [], [], []⟩] ]
+      -- Golang: the private `<name>Re` of the compiled pattern (private names lower-case the first part)
+      else if t = "golang" then
+        [ globalFamily t "derived-functions"
+            [⟨"pattern_verification_functions", "golang.private_constant_name", [], "_re".toList.map (·.toNat), [], []⟩] ]
+      else [])
+  -- TypeScript: `set<Property>FromJsonable` of the setter class, `over<Property>OrEmpty` … (a prefix before the
+  -- property name, so that the first part of the name is capitalised like the others)
+  ++ (if t = "typescript" then
+        [ { covered := (derivedLoops t).contains ("prop", tsSetterLoop),
+            scopes := fun mm => mm.classes.flatMap fun c =>
+              [{ kind := "setters", owner := c.name,
+                 ents := c.props.map fun p =>
+                   { fn := tsSetterLoop.fn, ident := tsSetterLoop.pre ++ p ++ tsSetterLoop.post },
+                 reported := false }] } ]
+      else [])
+  -- the generated `ModelType` enumeration among the types (golang: with its literals as global constants)
+  ++ (if emitsModelTypeEnum t then
+        [ { covered := modelTypeReserved t && (t != "golang" || Gen.Naming.modelTypeLiteralsReserved),
+            scopes := fun mm =>
+              [{ kind := "structures+ModelType", owner := [],
+                 ents := structureEnts t mm ++ [modelTypeEnumEnt t] ++ (if t = "golang" then modelTypeLiteralEnts mm else []),
+                 reported := false }] } ]
+      else [])
+  -- names derived from the structure names with a *coarser* conversion than the structure name itself
+  ++ (if t = "python" then
+        -- `<name>_from_jsonable`, `visit_<name>`, … (lower snake) while class names keep abbreviations
+        [ globalFamily t "derived-structures"
+            [⟨"enumerations", "python.function_name", [], fromJsonablePost, [], []⟩,
+             ⟨"classes", "python.function_name", [], fromJsonablePost, [], []⟩] ]
+      else if t = "golang" then
+        [ -- `Verify<Name>` for every enumeration, constrained primitive and CONCRETE class
+          -- (`for cls in symbol_table.concrete_classes`: an abstract class gets none)
+          globalFamily t "derived-structures"
+            [⟨"enumerations", "golang.function_name", verifyPre, [], [], []⟩,
+             ⟨"constrained_primitives", "golang.function_name", verifyPre, [], [], []⟩,
+             ⟨"concrete_classes", "golang.function_name", verifyPre, [], [], []⟩],
+          -- stringification: `<name>FromStringMap` … private names lower-case the first part
+          globalFamily t "derived-enums-private"
+            [⟨"enumerations", "golang.private_constant_name", [], "_from_string_map".toList.map (·.toNat), [], []⟩],
+          -- jsonization: `<Name>FromJsonable` for every enumeration and class (an abstract class is otherwise only
+          -- checked as `I<Name>`), private `<name>ToMap` (concrete) / `<name>FromMap` (classes with descendants)
+          globalFamily t "derived-jsonization"
+            [⟨"enumerations", "golang.function_name", [], fromJsonablePost, [], []⟩,
+             ⟨"classes", "golang.function_name", [], fromJsonablePost, [], []⟩,
+             ⟨"concrete_classes", "golang.private_function_name", [], "_to_map".toList.map (·.toNat), [], []⟩,
+             ⟨"classes_with_descendants", "golang.private_function_name", [], "_from_map".toList.map (·.toNat), [], []⟩],
+          -- private struct fields
+          { covered := intraCovered t "prop" "golang.private_property_name",
+            scopes := fun mm => mm.classes.filterMap fun c =>
+              if c.abstract then none else
+              some { kind := "private-members", owner := c.name,
+                     ents := c.props.map fun p => { fn := "golang.private_property_name", ident := p }, reported := false } } ]
+      else [])
+
+/-- The property scopes of the schema generators: the check (when present) walks ALL `cls.properties`, the emitted
+`properties` / `xs:sequence` of a class hold its own ones. -/
+def jsonPropertyScopes (checked : Bool) (mm : MM) : List Scope :=
+  mm.classes.map fun c =>
+    { kind := "properties", owner := c.name,
+      ents := (if checked then c.props else c.ownProps).map fun p => { fn := "naming.json_property", ident := p },
+      reported := checked }
+
+def xsdTypesScope (checked : Bool) (mm : MM) : Scope :=
+  { kind := "types", owner := [], ents := xsdEnts "xs:simpleType" mm ++ xsdEnts "xs:complexType" mm,
+    reported := checked && Gen.Naming.xsdObservedChecked }
+
+def xsdSequenceScopes (checked : Bool) (mm : MM) : List Scope :=
+  mm.classes.map fun c =>
+    { kind := "sequence", owner := c.name,
+      ents := (if checked then c.props else c.ownProps).map fun p => { fn := "naming.xml_property", ident := p },
+      reported := checked }
+
+/-- The scopes a target's check looks at. -/
+def checkedScopes (t : String) (mm : MM) : List Scope :=
+  if t = "jsonschema" then
+    [ { kind := "definitions", owner := [], ents := jsonDefinitionEnts mm,
+        reported := Gen.Naming.jsonDefinitionsChecked },
+      { kind := "definitions+ModelType", owner := [], ents := jsonDefinitionEnts mm ++ [modelTypeEnt],
+        reported := Gen.Naming.jsonDefinitionsChecked && Gen.Naming.modelTypeChecked } ]
+    ++ (if Gen.Naming.jsonPropertiesChecked then jsonPropertyScopes true mm else [])
+  else if t = "xsd" then
+    -- `observed_definitions`: one dictionary per symbol space of the root's children (`xs:simpleType` and
+    -- `xs:complexType` share one when `Gen.Naming.xsdTypesShared`)
+    ((if Gen.Naming.xsdTypesShared then [xsdTypesScope true mm]
+      else ["xs:simpleType", "xs:complexType"].map fun tag =>
+        { kind := tag, owner := [], ents := xsdEnts tag mm, reported := Gen.Naming.xsdObservedChecked })
+     ++ [{ kind := "xs:group", owner := [], ents := xsdEnts "xs:group" mm, reported := Gen.Naming.xsdObservedChecked }])
+    ++ (if Gen.Naming.xsdSequenceChecked then xsdSequenceScopes true mm else [])
+  else if t ∈ sdkTargets then
+    { kind := "structures", owner := [], ents := structureEnts t mm ++ reservedEnts t mm, reported := true }
+      :: (intraScopes t mm ++ globalScopes t mm)
+  else []
+
+/-- Scopes the generators emit into but no check covers. -/
 def uncheckedScopes (t : String) (mm : MM) : List Scope :=
   if t ∈ sdkTargets then
-    [ { kind := "constants", owner := [], ents := mm.consts.map fun c => { fn := constFn t, ident := c }, reported := false },
-      { kind := "functions", owner := [], ents := mm.funcs.map fun f => { fn := funcFn t, ident := f }, reported := false } ]
-    ++ (if t = "csharp" ∨ t = "java" then
-          mm.enums.map fun e =>
-            { kind := "literals", owner := e.name,
-              ents := e.literals.map fun l => { fn := t ++ ".enum_literal_name", ident := l }, reported := false }
-        else [])
-    -- `verify_<Name>` of the verification module for every constrained primitive: no structure check looks at
-    -- constrained primitives (golang: part of `derived-structures` below, together with the other types)
-    ++ (if t = "golang" then []
-        else
-          [ { kind := "derived-cprims", owner := [],
-              ents := mm.types.filterMap fun
-                | .cprim n => some { fn := funcFn t, ident := "verify_".toList.map (·.toNat) ++ n }
-                | _ => none,
-              reported := false } ])
-    -- Java: the check compares `property_name`s, the generated members are `get…`/`set…` (`getter_name`)
-    ++ (if t = "java" then
-          mm.classes.map fun c =>
-            { kind := "accessors", owner := c.name,
-              ents := c.props.map fun p => { fn := "java.getter_name", ident := p }, reported := false }
-        else [])
-    -- names derived from the structure names with a *coarser* conversion than the structure name itself
-    ++ (if t = "python" then
-          -- `<name>_from_jsonable`, `visit_<name>`, … (lower snake) while class names keep abbreviations
-          [ { kind := "derived-structures", owner := [],
-              ents := (mm.enums.map fun e => { fn := "python.function_name", ident := e.name })
-                ++ (mm.classes.map fun c => { fn := "python.function_name", ident := c.name }), reported := false } ]
-        else if t = "golang" then
-          [ -- `Verify<Name>` for every enumeration, constrained primitive and CONCRETE class
-            -- (`for cls in symbol_table.concrete_classes`: an abstract class gets none)
-            { kind := "derived-structures", owner := [],
-              ents := mm.types.filterMap fun
-                | .enum e => some { fn := "golang.function_name", ident := e.name }
-                | .cprim n => some { fn := "golang.function_name", ident := n }
-                | .cls c => if c.abstract then none else some { fn := "golang.function_name", ident := c.name },
-              reported := false },
-            -- `<name>FromStringMap` … private names lower-case the first part
-            { kind := "derived-enums-private", owner := [],
-              ents := mm.enums.map fun e => { fn := "golang.private_function_name", ident := e.name }, reported := false } ]
-          -- private struct fields
-          ++ (mm.classes.filterMap fun c =>
-                if c.abstract then none else
-                some { kind := "private-members", owner := c.name,
-                       ents := c.props.map fun p => { fn := "golang.private_property_name", ident := p }, reported := false })
-        else [])
+    (sdkFamilies t).flatMap fun f => if f.covered then [] else f.scopes mm
   else if t = "jsonschema" then
-    mm.classes.map fun c =>
-      { kind := "properties", owner := c.name,
-        ents := c.ownProps.map fun p => { fn := "naming.json_property", ident := p }, reported := false }
+    (if Gen.Naming.jsonPropertiesChecked then [] else jsonPropertyScopes false mm)
   else if t = "xsd" then
-    { kind := "types", owner := [], ents := xsdEnts "xs:simpleType" mm ++ xsdEnts "xs:complexType" mm, reported := false }
-    :: (mm.classes.map fun c =>
-      { kind := "sequence", owner := c.name,
-        ents := c.ownProps.map fun p => { fn := "naming.xml_property", ident := p }, reported := false })
+    (if Gen.Naming.xsdTypesShared then [] else [xsdTypesScope false mm])
+    ++ (if Gen.Naming.xsdSequenceChecked then [] else xsdSequenceScopes false mm)
   else []
 
 def emittedScopes (t : String) (mm : MM) : List Scope := checkedScopes t mm ++ uncheckedScopes t mm
